@@ -1,20 +1,45 @@
 """C18 -- Creating a table is idempotent and race-safe.
 
-Proof      : coq/Props/C18.v over Model/Create.v: for every interleaving of any number of creators / openers on
-             storage with real mutual exclusion (exclusive lock, or conditional pointer creation under ANY lock): at
-             most one pointer creation succeeds; the pointer never changes afterwards; an existing table (pointer
-             intact or lost) is never re-initialised and every caller adopts it; with the exclusive lock every caller
-             ends on the same table.
-Tie        : real create_table / load_table / Table(...) calls (and a first appender) run as actors under the
-             scheduler on the local backend (real flock) and on S3StorageBackend over the in-memory conditional-write
-             S3 with a grant-everyone lock, from initial states {absent, healthy, pointer lost, only-v0 with pointer
-             lost}; their storage log is projected to model events (probe, lock, check, v0 write, pointer creation,
-             release, adopt) which `crun_strict` must accept; number of successful creations and the adopted identity
-             must agree.
-Oracle     : one table identity at the end: every caller's handle resolves to the same table_uuid; an existing
-             table's uuid, schema and rows are unchanged; the first appender's rows are in the table; a schema given at
-             creation is persisted and used by schema-less appends; with no schema anywhere an append raises and writes
-             nothing.
+Proof      : coq/Props/C18.v over Model/Create.v (creation machine; what a refused create-if-absent does is READ from
+             Gen/GenCommit.v) and Model/CreateSchema.v (kernels of Gen/GenCreateSchema.v), for every interleaving of any
+             number of creators / openers on storage with real mutual exclusion (exclusive lock, or conditional pointer
+             creation under ANY lock):
+               * at most one pointer creation ever succeeds; once every caller has returned EXACTLY one has, and it is the
+                 table in effect (C18_single_init, C18_exactly_one_init); the pointer never changes (C18_pointer_stable);
+               * an existing table in ANY state whose metadata files carry one identity (any number of versions, pointer
+                 intact / lost / dangling) is never re-initialised and every caller ends on it, any storage configuration
+                 (C18_existing_never_reinitialised, C18_existing_versions);
+               * what a race from nothing LEAVES BEHIND is such a table: only the winner's metadata file stays on storage, so
+                 recovery after a pointer loss finds the same table and every later caller ends on it
+                 (C18_race_leaves_one_table, C18_race_then_pointer_loss);
+               * same table: every call that returns after the publication is on the published table
+                 (C18_same_table_published); with the exclusive lock also before it (C18_same_table_partial, hypothesis
+                 lockkind = Excl); the full statement about the identity seen AT RETURN is refuted by a witness
+                 (C18_same_table_full_refuted: conditional writes + a lock that excludes nobody, an opener returns between two
+                 unpublished v0 files) -- Table handles hold no identity, so this is not a violation of the property text;
+               * schema: the schema given at creation is in v0 and is what a schema-less append uses; none (or one without
+                 fields) -> the append raises before its first storage write and the table is unchanged; after a race it is the
+                 schema of the one initialisation that took effect (C18_schema_persisted_and_used,
+                 C18_no_schema_append_raises, C18_schema_of_race).
+             NOT proved (oracle only): the first appender's COMMIT racing the creators (commits are C01's machine; no theorem
+             here says it lands on the winner's table), creators that die between steps, storage faults (re-sent requests).
+Tie        : real create_table / load_table / Table(...) calls (and a first appender) run as actors under the scheduler on
+             the local backend (real flock; opening and flock()ing the lock file are separate steps, and so is every storage
+             operation a backend's create_lock performs on the lock file) and on S3StorageBackend over the in-memory
+             conditional-write S3 with a grant-everyone lock, from initial states {absent, healthy, pointer lost, only-v0 with
+             pointer lost}; EVERY schedule with at most two preemptions for two creators of an absent table, bounded
+             enumeration + random otherwise.  The storage log is projected to model events (probe, lock, check, v0 write,
+             pointer creation, second resolution + removal of the own v0 after a refused creation, release, adopt) which
+             `crun_strict` must accept; compared: number of successful creations, v0 files left on storage, identity of the
+             final table, identity found after the pointer is then lost.  Runs in which a first appender's commit creates the
+             pointer before a creator does are outside the machine (oracle only; counted in stats).  Schema kernels: six schema
+             arguments, v0's (schemas, current_schema_id) and accept / raise of a schema-less append vs the model.
+Oracle     : one table identity at the end: every caller's handle resolves to the same table_uuid; an existing table's uuid,
+             schema and rows are unchanged; the first appender's rows are in the table; EPILOGUE of every run: the pointer of
+             the table the run left behind is deleted and the table opened again -- identity, persisted schemas and rows must
+             be those before the loss; a schema given at creation is persisted and used by schema-less appends; with no schema
+             anywhere an append raises and writes nothing; a creator dying after each of its steps; a re-sent pointer creation
+             answered 412.
 """
 from __future__ import annotations
 
@@ -34,14 +59,22 @@ THEOREMS = ["C18_single_init", "C18_exactly_one_init", "C18_pointer_stable", "C1
             "C18_schema_persisted_and_used", "C18_no_schema_append_raises", "C18_schema_of_race"]
 REQ = ["DS.Model.Commit", "DS.Model.Create"]
 MANIFEST_ENTRY = {
-    "level_text": "C18 theorems proved in Coq for every interleaving of any number of creators/openers (single initialisation, "
-                  "pointer stability, existing tables never re-initialised, one identity under the exclusive lock); real "
-                  "create_table / load_table / Table() calls and a first appender are scheduled at storage-operation granularity on "
-                  "local and CAS-S3 backends from four initial states and trace-validated against the model; an implementation-only "
-                  "oracle checks single identity, preservation of an existing table, schema persistence and the no-schema error",
-    "level_note": "trusted: Coq kernel; translator/gen_commit.py (skeleton of initialize_table and the failure classes of the pointer creation: C18_skeleton_regenerated); scheduler harness and projection; recovery modelled as 'newest metadata file' (the code "
-                  "breaks ties by mtime, then listing order); in-memory S3 as in C08",
-    "technique": "Coq invariant proof over a creation machine with translator-regenerated skeleton + scheduled trace validation",
+    "level_text": "C18 theorems proved in Coq for every interleaving of any number of creators/openers on storage with real mutual "
+                  "exclusion: at most one / at rest exactly one initialisation, pointer stability, an existing table in any one-identity "
+                  "state never re-initialised, a race leaves only the winner's metadata behind (so a later pointer loss recovers the "
+                  "same table), every call returning after publication is on the published table (before it: only with the exclusive "
+                  "lock -- the full 'identity seen at return' statement is refuted by a witness), schema given at creation persisted and "
+                  "used, no schema -> append raises before any write; what a refused create-if-absent does and the schema kernels are "
+                  "regenerated from the source. NOT proved, oracle only: the first appender's commit racing creators, dying creators, "
+                  "storage faults. Real create_table / load_table / Table() calls and a first appender are scheduled at "
+                  "storage-operation granularity (lock-file creation included) on local and CAS-S3 backends from four initial states and "
+                  "trace-validated against the model; every run's final state is re-opened after deleting its pointer",
+    "level_note": "trusted: Coq kernel; translator/gen_commit.py (skeleton of initialize_table, failure classes of the pointer creation, "
+                  "_is_table_in_effect pinned: C18_skeleton_regenerated) and gen_createschema.py (source shapes pinned); scheduler harness "
+                  "and projection; recovery modelled as 'highest version, newest file' (the code breaks ties by mtime, then listing "
+                  "order; the harness clock makes mtimes distinct); in-memory S3 as in C08; C18_same_table_partial carries the extra "
+                  "hypothesis lockkind = Excl; a metadata file's content is abstracted to (identity, version)",
+    "technique": "Coq invariant proofs over a creation machine whose conflict handling and schema kernels are translator-regenerated + scheduled trace validation + pointer-loss epilogue oracle",
     "design_ref": "DESIGN.md section 5 C18",
 }
 
@@ -559,8 +592,10 @@ def schema_replay(ctx, k: int) -> int:
 
 def run(ctx) -> None:
     ctx.rule = ("schedules of 2-3 creators/openers (create_table, load_table, Table(), create+first append) at storage-operation "
-                "granularity x initial state {absent, healthy, pointer lost, v0 only + pointer lost} x {local flock, CAS-S3 with a "
-                "grant-everyone lock}; bounded-preemption enumeration + random; distinct = executed schedule")
+                "granularity (lock-file creation: open / flock / backend writes are steps) x initial state {absent, healthy, pointer lost, "
+                "v0 only + pointer lost} x {local flock, CAS-S3 with a grant-everyone lock}; all <=2-preemption schedules for two creators "
+                "of an absent table, bounded-preemption enumeration + random otherwise; every run followed by a pointer loss + reopen; "
+                "six schema arguments; distinct = executed schedule")
     ctx.trusted_base += ["harness/lib/sched.py, mems3.py; harness/props/c18.py projection of storage calls onto creation events"]
     ctx.proofs(THEOREMS, gen_files=["GenCommit.v", "GenCreateSchema.v"])
     ctx.allow_axioms([])
@@ -684,7 +719,8 @@ def run(ctx) -> None:
     if metas:
         b, i, k, d, o, e = metas[0]
         ctx.sample({"backend": b, "init": i, "kinds": k, "schedule": o["schedule"], "model_events": e})
-    ctx.correspondence("create-trace", total, bad)
+    ctx.stats["runs_compared_with_the_creation_machine"] = len(metas)
+    ctx.correspondence("create-trace", len(metas), bad)
 
 
 def replay(ctx, payload) -> int:
